@@ -34,6 +34,7 @@ func (f *OrefaFile) Chdir() error {
 		return fs.ErrInvalid
 	}
 
+	verifYield(&f.mu, false)
 	f.mu.RLock()
 	defer f.mu.RUnlock()
 
@@ -68,6 +69,7 @@ func (f *OrefaFile) Chmod(mode fs.FileMode) error {
 		return fs.ErrInvalid
 	}
 
+	verifYield(&f.mu, true)
 	f.mu.Lock()
 	defer f.mu.Unlock()
 
@@ -96,6 +98,7 @@ func (f *OrefaFile) Chown(uid, gid int) error {
 		return fs.ErrInvalid
 	}
 
+	verifYield(&f.mu, true)
 	f.mu.Lock()
 	defer f.mu.Unlock()
 
@@ -126,6 +129,7 @@ func (f *OrefaFile) Close() error {
 		return fs.ErrInvalid
 	}
 
+	verifYield(&f.mu, true)
 	f.mu.Lock()
 	defer f.mu.Unlock()
 
@@ -166,6 +170,7 @@ func (f *OrefaFile) Read(b []byte) (n int, err error) {
 		return 0, fs.ErrInvalid
 	}
 
+	verifYield(&f.mu, false)
 	f.mu.RLock()
 	defer f.mu.RUnlock()
 
@@ -191,6 +196,7 @@ func (f *OrefaFile) Read(b []byte) (n int, err error) {
 		return 0, &fs.PathError{Op: op, Path: f.name, Err: f.vfs.err.BadFileDesc}
 	}
 
+	verifYield(&nd.mu, false)
 	nd.mu.RLock()
 	n = copy(b, nd.data[f.at:])
 	nd.mu.RUnlock()
@@ -215,6 +221,7 @@ func (f *OrefaFile) ReadAt(b []byte, off int64) (n int, err error) {
 		return 0, fs.ErrInvalid
 	}
 
+	verifYield(&f.mu, false)
 	f.mu.RLock()
 	defer f.mu.RUnlock()
 
@@ -244,6 +251,7 @@ func (f *OrefaFile) ReadAt(b []byte, off int64) (n int, err error) {
 		return 0, &fs.PathError{Op: op, Path: f.name, Err: f.vfs.err.BadFileDesc}
 	}
 
+	verifYield(&nd.mu, false)
 	nd.mu.RLock()
 	defer nd.mu.RUnlock()
 
@@ -274,6 +282,7 @@ func (f *OrefaFile) ReadDir(n int) ([]fs.DirEntry, error) {
 		return nil, fs.ErrInvalid
 	}
 
+	verifYield(&f.mu, false)
 	f.mu.RLock()
 	defer f.mu.RUnlock()
 
@@ -301,6 +310,7 @@ func (f *OrefaFile) ReadDir(n int) ([]fs.DirEntry, error) {
 	}
 
 	if n <= 0 || f.dirEntries == nil {
+		verifYield(&nd.mu, false)
 		nd.mu.RLock()
 		de := nd.dirEntries()
 		nd.mu.RUnlock()
@@ -351,6 +361,7 @@ func (f *OrefaFile) Readdirnames(n int) (names []string, err error) {
 		return nil, fs.ErrInvalid
 	}
 
+	verifYield(&f.mu, false)
 	f.mu.RLock()
 	defer f.mu.RUnlock()
 
@@ -378,6 +389,7 @@ func (f *OrefaFile) Readdirnames(n int) (names []string, err error) {
 	}
 
 	if n <= 0 || f.dirNames == nil {
+		verifYield(&nd.mu, false)
 		nd.mu.RLock()
 		names = nd.dirNames()
 		nd.mu.RUnlock()
@@ -423,6 +435,7 @@ func (f *OrefaFile) Seek(offset int64, whence int) (ret int64, err error) {
 		return 0, fs.ErrInvalid
 	}
 
+	verifYield(&f.mu, true)
 	f.mu.Lock()
 	defer f.mu.Unlock()
 
@@ -439,6 +452,7 @@ func (f *OrefaFile) Seek(offset int64, whence int) (ret int64, err error) {
 		return 0, nil
 	}
 
+	verifYield(&nd.mu, false)
 	nd.mu.RLock()
 	size := int64(len(nd.data))
 	nd.mu.RUnlock()
@@ -480,6 +494,7 @@ func (f *OrefaFile) Stat() (info fs.FileInfo, err error) {
 		return nil, fs.ErrInvalid
 	}
 
+	verifYield(&f.mu, false)
 	f.mu.RLock()
 	defer f.mu.RUnlock()
 
@@ -517,6 +532,7 @@ func (f *OrefaFile) Sync() error {
 		return fs.ErrInvalid
 	}
 
+	verifYield(&f.mu, false)
 	f.mu.RLock()
 	defer f.mu.RUnlock()
 
@@ -541,6 +557,7 @@ func (f *OrefaFile) Truncate(size int64) error {
 		return fs.ErrInvalid
 	}
 
+	verifYield(&f.mu, false)
 	f.mu.RLock()
 	defer f.mu.RUnlock()
 
@@ -575,6 +592,7 @@ func (f *OrefaFile) Truncate(size int64) error {
 		return &fs.PathError{Op: op, Path: f.name, Err: f.vfs.err.InvalidArgument}
 	}
 
+	verifYield(&nd.mu, true)
 	nd.mu.Lock()
 
 	nd.truncate(size)
@@ -595,6 +613,7 @@ func (f *OrefaFile) Write(b []byte) (n int, err error) {
 		return 0, fs.ErrInvalid
 	}
 
+	verifYield(&f.mu, false)
 	f.mu.RLock()
 	defer f.mu.RUnlock()
 
@@ -625,6 +644,7 @@ func (f *OrefaFile) Write(b []byte) (n int, err error) {
 		return 0, &fs.PathError{Op: op, Path: f.name, Err: err}
 	}
 
+	verifYield(&nd.mu, true)
 	nd.mu.Lock()
 
 	n = copy(nd.data[f.at:], b)
@@ -656,6 +676,7 @@ func (f *OrefaFile) WriteAt(b []byte, off int64) (n int, err error) {
 		return 0, &fs.PathError{Op: "writeat", Path: f.name, Err: avfs.ErrNegativeOffset}
 	}
 
+	verifYield(&f.mu, false)
 	f.mu.RLock()
 	defer f.mu.RUnlock()
 
@@ -686,6 +707,7 @@ func (f *OrefaFile) WriteAt(b []byte, off int64) (n int, err error) {
 		return 0, &fs.PathError{Op: op, Path: f.name, Err: err}
 	}
 
+	verifYield(&nd.mu, true)
 	nd.mu.Lock()
 
 	diff := off + int64(len(b)) - nd.size()
